@@ -229,15 +229,19 @@ class Gen:
             k = r.random()
             if k < 0.5:
                 inner.append("    " + r.choice(["Item", "Row"]) + " {" + var + "}" + ("<>" if r.random() < 0.2 else ""))
-            elif k < 0.8:
+            elif k < 0.76:
                 inner.append("    ~ " + self.stmt(sc))
+            elif k < 0.84 and self.p.directives:
+                inner.append("    " + r.choice([f"@render row({var})" if coll != "list(d)" else "@render row(1)",
+                                                f"@render panel({self.int_expr(sc, 1)})", '@input name="each"']))
+                self.tag("directive-in-loop")
             elif depth < self.p.depth:
                 inner.extend("    " + l for l in self.cond_block(sc, depth + 1))
             else:
                 inner.append("    " + self.text_line(sc))
         if r.random() < 0.3:
             inner.append("    " + self.choice_line(sc, loopvar=var))
-        if r.random() < 0.12 * (self.p.jumps > 0):
+        if r.random() < 0.18 * (self.p.jumps > 0):
             t = self.target()
             inner.append(f"    -> {t}{self.call_args(t, sc)}")
             self.tag("jump-in-loop")
